@@ -76,4 +76,8 @@ pub fn lit(s: &str) -> String {
 }
 
 pub mod arr;
+pub mod cap;
+pub mod conc;
+pub mod gc;
+pub mod status;
 pub mod strs;
